@@ -202,7 +202,7 @@ def run_job(spec):
         lemma_fails = lemmas.check_for([lemmas.effective_options(election_options(spec))])
     eng = core.Engine(timeout_ms=int(spec.get('query_timeout_ms', 20000)), max_branches=int(spec.get('max_branches', 20000)))
     budget = float(spec.get('budget_s', 600))
-    path_limit = float(spec.get('path_limit_s', 120))
+    path_limit = float(spec.get('path_limit_s', 60))
     validate = spec.get('validate', 'all')
     res = dict(spec=spec, violations=[], harness_errors=[], reach={}, samples=[], validated=0, functions=[],
                mismatches=[], lemma=None)
@@ -301,7 +301,7 @@ def run_job(spec):
     def on_path(status):
         # C01 (termination): a path that hits the per-path cap is replayed concretely; only a concrete count that also fails
         # to finish within its wall limit is a violation
-        if status != 'limit' or 'C01' not in spec['monitors'] or spec.get('allow_truncated'):
+        if status not in ('limit', 'budget') or 'C01' not in spec['monitors'] or spec.get('allow_truncated'):
             return
         if seen_keys.get('count-does-not-terminate', 0) >= 1:
             return
@@ -316,6 +316,7 @@ def run_job(spec):
         if (rep.get('exc') or '').startswith('TimeoutError'):
             seen_keys['count-does-not-terminate'] = 1
             res['violations'].append(dict(key='count-does-not-terminate', mvals=conc['mvals'], tvals=conc['tvals'], replay=rep))
+            eng.deadline = time.time()      # reported: do not spend the rest of the budget on further non-terminating paths
 
     try:
         if lemma_fails:
